@@ -20,7 +20,7 @@ func C19() int {
 	defer s.Close()
 	vocab := Vocabulary(s, c)
 	nfiles := pickN(c, 60, 600)
-	reps := []*string{nil, sp(""), sp("Ωmega ñ"), sp(`q"uo\te`), sp("$lead")}
+	reps := []*string{nil, sp(""), sp("Ωmega ñ"), sp(`q"uo\te`), sp("$lead"), sp("\x1b[1mX\x07\x7f\U000E0001 \\u0026 & <")}
 	type job struct {
 		file int
 		f    Flags
